@@ -25,6 +25,7 @@ CHECKS = {
         runs=[
             dict(name="seq", run="^TestPropSequential$", checks=(3000, 30000), shards=(4, 16)),
             dict(name="conc", run="^TestPropConcurrent$", checks=(150, 1500), shards=(4, 16)),
+            dict(name="trickle", run="^TestPropTrickle$", checks=(12, 60), shards=(4, 8), shrinktime="1s"),
             dict(name="regress", run="^TestRegress", shards=(1, 1)),
         ],
     ),
@@ -76,6 +77,7 @@ CHECKS = {
         pkg="./csched", level="exploration",
         runs=[
             dict(name="sched", run="^TestC03Shutdown$", checks=(6000, 60000), shards=(4, 16)),
+            dict(name="stress", run="^TestC03Stress$", checks=(300, 3000), shards=(2, 4)),
             dict(name="regress", run="^TestRegress", shards=(1, 1)),
         ],
     ),
@@ -91,6 +93,7 @@ CHECKS = {
         runs=[
             dict(name="scripted", run="^TestPropSendRequest$", checks=(5000, 50000), shards=(4, 16)),
             dict(name="realnats", run="^TestRealNATS$", shards=(1, 1)),
+            dict(name="oldtimers", run="^TestOldTimerSemantics$", shards=(2, 4), env={"GODEBUG": "asynctimerchan=1"}),
         ],
     ),
     "C09": dict(
